@@ -351,6 +351,29 @@ class Body:
                 res.append(set(c))
         return res
 
+    def natural_loops(self):
+        """{head: body} — natural loops from back edges (x -> h with h dominating x); nested loops are separate entries"""
+        if getattr(self, "_nat", None) is not None:
+            return self._nat
+        loops = {}
+        for x in sorted(self.reachable):
+            for h in self.succ[x]:
+                if h in self.reachable and self.dominates(h, x):
+                    body = loops.setdefault(h, {h})
+                    work = [x]
+                    while work:
+                        n = work.pop()
+                        if n in body:
+                            continue
+                        body.add(n)
+                        work.extend(p for p in self.pred[n] if p in self.reachable)
+        self._nat = loops
+        return loops
+
+    def innermost_loop(self, bb):
+        c = [L for L in self.natural_loops().values() if bb in L]
+        return min(c, key=len) if c else None
+
     # ---- statements iteration
     def stmts(self, blocks=None):
         """yield (bb, idx, stmt) for assign statements, and (bb, 't', term) for terminators."""
